@@ -755,7 +755,8 @@ class S3ChunkStore(ChunkStore):
         md5_gen.update(chunk)
         md5 = base64.b64encode(md5_gen.digest())
         headers = {'Content-MD5': md5.decode()}
-        data = _Multipart([npy_header, memoryview(chunk)])
+        # Flatten the chunk: urllib3 >= 2 calls len() on each body part, which fails on 0-dim buffers
+        data = _Multipart([npy_header, memoryview(chunk.reshape(-1))])
         self.request('PUT', url, chunk_name=chunk_name, headers=headers, data=data)
 
     def mark_complete(self, array_name):
